@@ -15,6 +15,33 @@ use serde::Serialize;
 use serde_json::{json, Value};
 
 pub const VERIF_DIR: &str = "/verif";
+
+/// Progress counter for the watchdog: bumped once per executed case.
+pub static PROGRESS: std::sync::atomic::AtomicU64 = std::sync::atomic::AtomicU64::new(0);
+
+/// Starts a watchdog thread: when no case completes for `VERIF_WATCHDOG_S` seconds (default 180)
+/// the process exits with status 2 (inconclusive — never reported as a violation).
+pub fn start_watchdog() {
+    let limit: u64 = std::env::var("VERIF_WATCHDOG_S").ok().and_then(|s| s.parse().ok()).unwrap_or(180);
+    std::thread::spawn(move || {
+        let mut last = PROGRESS.load(std::sync::atomic::Ordering::Relaxed);
+        let mut idle = 0u64;
+        loop {
+            std::thread::sleep(std::time::Duration::from_secs(1));
+            let now = PROGRESS.load(std::sync::atomic::Ordering::Relaxed);
+            if now == last {
+                idle += 1;
+                if idle >= limit {
+                    eprintln!("WATCHDOG: no case completed for {limit} s (a case hangs or spins); inconclusive");
+                    std::process::exit(2);
+                }
+            } else {
+                idle = 0;
+                last = now;
+            }
+        }
+    });
+}
 pub const DEFAULT_SEED: u64 = 20260926;
 
 #[derive(Clone, Copy, Debug, PartialEq, Eq)]
@@ -317,6 +344,7 @@ where
         };
         let case = tree.current();
         let report = engine.run_case(&case);
+        PROGRESS.fetch_add(1, std::sync::atomic::Ordering::Relaxed);
         out.evaluations += 1;
         out.noop_ops += report.noop_ops;
         out.total_ops += report.total_ops;
@@ -366,6 +394,7 @@ where
                     iters += 1;
                     let cur = tree.current();
                     let rep = engine.run_case(&cur);
+                    PROGRESS.fetch_add(1, std::sync::atomic::Ordering::Relaxed);
                     let hit = rep
                         .violations
                         .iter()
@@ -416,6 +445,7 @@ pub fn run_listed<E: Engine>(ctx: &Ctx, engine: &E, leg: &str, cases: Vec<E::Cas
                     let mut seen: BTreeSet<String> = BTreeSet::new();
                     for case in chunk {
                         let report = engine.run_case(&case);
+                        PROGRESS.fetch_add(1, std::sync::atomic::Ordering::Relaxed);
                         out.evaluations += 1;
                         out.noop_ops += report.noop_ops;
                         out.total_ops += report.total_ops;
